@@ -22,6 +22,13 @@ package main
 //   goroutines released together (random spin / Gosched jitter, GOMAXPROCS varied per child); each result is compared
 //   with the parent's value, then once more sequentially. A wrong value or a crashed child gives conc=0.
 //
+// Op line   : C18 par <entry> <curve/field> <k> <goroutines> <gomaxprocs> <seed>
+// Go answer : pure=<b> same=<b> conc=<b> [arg=…]. The entry point is run at a size ABOVE the threshold at which it switches
+//   to its goroutine / parallel.Execute implementation (shape 16 + low 4 bits of <seed>, see c18Par): once with GOMAXPROCS=1
+//   (the workers run one after the other: the sequential reference), then <k> times (up to 0x200) alone with
+//   GOMAXPROCS=<gomaxprocs> >= 2, then by <goroutines> concurrent callers x2; every result must be the reference
+//   (same: the solo repetitions, conc: the concurrent callers), every argument snapshot unchanged after each phase.
+//
 // Op line   : C18 ranges <n> <nbTasks>   answer: the [start,end) ranges handed to work by internal/parallel.Execute
 // (reached with go:linkname because the package is internal), sorted by start, "s:e s:e …" in hex, "-" if none.
 
@@ -80,9 +87,9 @@ func (d *deepHasher) walk(v reflect.Value) {
 		d.h.Write([]byte(v.String()))
 	case reflect.Array:
 		n := v.Len()
-		if v.Type().Elem().Kind() == reflect.Uint64 && v.CanAddr() && n > 0 && c18LittleEndian {
-			// field elements: the limbs in one Write (the same bytes as the loop below would write)
-			d.h.Write(unsafe.Slice((*byte)(v.Addr().UnsafePointer()), 8*n))
+		if n > 0 && v.CanAddr() && c18Plain(v.Type()) {
+			// field elements, points, hashes: the memory of the value in one Write (no pointer, no padding inside)
+			d.h.Write(unsafe.Slice((*byte)(v.Addr().UnsafePointer()), int(v.Type().Size())))
 			return
 		}
 		for i := 0; i < n; i++ {
@@ -95,6 +102,10 @@ func (d *deepHasher) walk(v reflect.Value) {
 		}
 		n := v.Len()
 		d.u64(uint64(n))
+		if n > 0 && c18Plain(v.Type().Elem()) {
+			d.h.Write(unsafe.Slice((*byte)(v.UnsafePointer()), n*int(v.Type().Elem().Size())))
+			return
+		}
 		for i := 0; i < n; i++ {
 			d.walk(v.Index(i))
 		}
@@ -146,6 +157,32 @@ func (d *deepHasher) walk(v reflect.Value) {
 	default:
 		d.u64(0xdead)
 	}
+}
+
+// c18Plain: values of the type are fully described by their memory: (arrays / structs of) fixed-size integers, no padding
+var c18PlainCache sync.Map
+
+func c18Plain(t reflect.Type) bool {
+	if v, ok := c18PlainCache.Load(t); ok {
+		return v.(bool)
+	}
+	res := false
+	switch t.Kind() {
+	case reflect.Int8, reflect.Int16, reflect.Int32, reflect.Int64, reflect.Uint8, reflect.Uint16, reflect.Uint32, reflect.Uint64:
+		res = true
+	case reflect.Array:
+		res = t.Len() > 0 && c18Plain(t.Elem())
+	case reflect.Struct:
+		res = t.NumField() > 0
+		var sz uintptr
+		for i := 0; i < t.NumField() && res; i++ {
+			res = c18Plain(t.Field(i).Type)
+			sz += t.Field(i).Type.Size()
+		}
+		res = res && sz == t.Size()
+	}
+	c18PlainCache.Store(t, res)
+	return res
 }
 
 var c18LittleEndian = func() bool { x := uint16(1); return *(*byte)(unsafe.Pointer(&x)) == 1 }()
@@ -212,7 +249,24 @@ var c18Makers = map[string]c18Maker{}
 
 var c18Entries = []string{"pairfixedq", "millerloopfixedq", "pairingcheckfixedq", "pair", "kzgverify", "kzgbatchverify",
 	"kzgopen", "kzgcommit", "kzgbatchopen", "multiexp", "fft", "mimc", "poseidon2", "sis", "batchscalarmul", "batchjactoaff", "iop",
-	"vector", "codec", "edwards", "polypool", "mdhasher"}
+	"vector", "codec", "edwards", "polypool", "mdhasher",
+	"plookupvec", "plookuptab", "permutation", "fri", "shplonk", "fflonk", "pedersen", "iopratio", "kzglagrange", "polynomial",
+	"vortex", "merkle"}
+
+// entry points with a goroutine / parallel.Execute implementation above some size (`C18 par` lines), same list as
+// GV.ForkJoin.parEntries
+var c18ParEntries = []string{"kzgopen", "kzgcommit", "kzgbatchopen", "multiexp", "fft", "sis", "batchscalarmul", "batchjactoaff",
+	"iop", "vector", "codec", "plookupvec", "plookuptab", "permutation", "fri", "shplonk", "fflonk", "pedersen", "iopratio",
+	"kzglagrange", "vortex", "merkle"}
+
+func c18ParSupported(entry, curve string) bool {
+	for _, e := range c18ParEntries {
+		if e == entry {
+			return c18Supported(entry, curve)
+		}
+	}
+	return false
+}
 var c18Curves = []string{"bn254", "bls12-377", "bls12-381", "bls24-315", "bls24-317", "bw6-633", "bw6-761"}
 var c18SmallFields = []string{"koalabear", "babybear", "goldilocks"}
 
@@ -235,8 +289,10 @@ func c18Supported(entry, curve string) bool {
 	switch entry {
 	case "sis":
 		return curve == "bls12-377" || isField
-	case "poseidon2":
+	case "poseidon2", "fft":
 		return isCurve || isField
+	case "vortex", "merkle":
+		return curve == "koalabear"
 	default:
 		return isCurve
 	}
@@ -301,6 +357,9 @@ func execC18(a []string) string {
 			return "err:args"
 		}
 		return c18FreshParent(a[1], a[2], int(g), int(n), seed)
+	}
+	if len(a) == 7 && a[0] == "par" {
+		return execC18Par(a[1:])
 	}
 	if len(a) != 6 {
 		return "err:args"
@@ -386,6 +445,9 @@ func execC18(a []string) string {
 	if r0 == "panic" {
 		return "panic"
 	}
+	if os.Getenv("GV_C18_DETAIL") != "" {
+		fmt.Fprintf(os.Stderr, "C18 %s %s shape %x: errors of the first call: %s\n", entry, curve, seed&0xf, c18ErrPattern(r0))
+	}
 	if !sess.concFirst {
 		concPhase()
 	}
@@ -397,6 +459,110 @@ func execC18(a []string) string {
 	out := "pure=" + boolStr(pure) + " same=" + boolStr(same) + " conc=" + boolStr(conc)
 	if tag != "" {
 		out += " arg=" + tag
+	}
+	return out
+}
+
+func execC18Par(a []string) string {
+	entry, curve := a[0], a[1]
+	k, ok1 := c18Hex(a[2], 1, 0x200)
+	g, ok2 := c18Hex(a[3], 0, 64)
+	p, ok3 := c18Hex(a[4], 2, 64)
+	seed, ok4 := c18Hex(a[5], 0, ^uint64(0))
+	if !ok1 || !ok2 || !ok3 || !ok4 || !c18ParSupported(entry, curve) {
+		return "err:args"
+	}
+	mk := c18Makers[entry+"/"+curve]
+	if mk == nil {
+		return "err:unimplemented"
+	}
+	old := runtime.GOMAXPROCS(1)
+	defer runtime.GOMAXPROCS(old)
+	sess := mk(newRng(seed), 16+int(seed&0xf))
+	pure, same, conc := true, true, true
+	tag := ""
+	before := sess.snap()
+	check := func() {
+		if name := sess.changed(before); name != "" {
+			pure = false
+			if tag == "" {
+				tag = name
+			}
+		}
+	}
+	// the sequential reference: with one P the workers of a fork-join run one after the other
+	ref := c18SafeCall(sess.call)
+	check()
+	if ref == "panic" {
+		return "panic"
+	}
+	runtime.GOMAXPROCS(int(p))
+	detail := os.Getenv("GV_C18_DETAIL") != ""
+	if detail {
+		fmt.Fprintf(os.Stderr, "C18 par %s %s shape %x: errors of the reference call: %s\n", entry, curve, seed&0xf, c18ErrPattern(ref))
+	}
+	bad := 0
+	for i := uint64(0); i < k; i++ {
+		if c18SafeCall(sess.call) != ref {
+			same = false
+			bad++
+		}
+		if i == 0 {
+			check()
+		}
+	}
+	check()
+	if g > 0 {
+		f := sess.call
+		if sess.concCall != nil {
+			f = sess.concCall
+		}
+		res := make([]string, 2*g)
+		start := make(chan struct{})
+		var wg sync.WaitGroup
+		for i := 0; i < int(g); i++ {
+			wg.Add(1)
+			go func(i int) {
+				defer wg.Done()
+				lr := newRng(seed + uint64(i)*7919 + 1)
+				<-start
+				for c := 0; c < 2; c++ {
+					for y := lr.intn(4); y > 0; y-- {
+						runtime.Gosched()
+					}
+					res[2*i+c] = c18SafeCall(f)
+				}
+			}(i)
+		}
+		close(start)
+		wg.Wait()
+		check()
+		for _, r := range res {
+			if r != ref {
+				conc = false
+				bad++
+			}
+		}
+	}
+	if detail {
+		fmt.Fprintf(os.Stderr, "C18 par %s %s: %d of %d results differ from the reference\n", entry, curve, bad, k+2*g)
+	}
+	out := "pure=" + boolStr(pure) + " same=" + boolStr(same) + " conc=" + boolStr(conc)
+	if tag != "" {
+		out += " arg=" + tag
+	}
+	return out
+}
+
+// the sequence of :ok / :err markers of a rendered result (GV_C18_DETAIL)
+func c18ErrPattern(s string) string {
+	out := ""
+	for i := 0; i < len(s); i++ {
+		if strings.HasPrefix(s[i:], ":ok") {
+			out += "+"
+		} else if strings.HasPrefix(s[i:], ":err") {
+			out += "E"
+		}
 	}
 	return out
 }
@@ -578,6 +744,21 @@ func c18Ranges(n, nb int) string {
 
 var c18Procs = []int{1, 2, 3, 8, 16}
 
+// solo repetitions, concurrent callers and number of lines (quick tier) of the `C18 par` lines of a family: cheap calls are
+// repeated often (a race with a probability of a few percent per call must show), expensive ones a few times
+type c18ParRun struct{ k, g, lines int }
+
+var c18Provers = map[string]bool{"plookupvec": true, "plookuptab": true, "permutation": true, "pedersen": true, "fflonk": true,
+	"shplonk": true, "kzglagrange": true}
+
+var c18ParCost = map[string]c18ParRun{
+	"merkle": {0x28, 8, 4}, "vortex": {0x18, 4, 4}, "fft": {5, 4, 2}, "sis": {8, 4, 2}, "vector": {0x20, 6, 2},
+	"batchjactoaff": {0xc, 4, 1}, "batchscalarmul": {8, 4, 1}, "iop": {0x10, 4, 2}, "iopratio": {8, 4, 2},
+	"kzgopen": {6, 3, 1}, "kzgcommit": {8, 4, 2}, "kzgbatchopen": {5, 3, 1}, "multiexp": {4, 3, 2}, "codec": {6, 3, 1},
+	"plookupvec": {3, 3, 1}, "plookuptab": {3, 2, 1}, "permutation": {3, 3, 1}, "fri": {4, 3, 1}, "shplonk": {3, 3, 1},
+	"fflonk": {3, 3, 1}, "pedersen": {3, 3, 1}, "kzglagrange": {3, 3, 1},
+}
+
 func genC18(g *gen) {
 	// parallel.Execute ranges: boundary lattice + random
 	ns := []int{0, 1, 2, 3, 4, 5, 7, 8, 9, 15, 16, 17, 31, 63, 64, 65, 100, 511, 512, 513, 1000, 1023, 1024, 1025}
@@ -605,8 +786,13 @@ func genC18(g *gen) {
 			}
 			shapes := []int{0, 1, 2}
 			switch entry {
-			case "fft", "kzgbatchopen":
+			case "fft", "kzgbatchopen", "plookupvec":
 				shapes = []int{0, 1, 2, 3, 4}
+			case "plookuptab":
+				shapes = []int{0, 1, 3}
+				if g.thorough() {
+					shapes = []int{0, 1, 2, 3, 4}
+				}
 			case "kzgbatchverify":
 				shapes = []int{0, 1, 3}
 			case "kzgverify", "kzgcommit":
@@ -632,6 +818,9 @@ func genC18(g *gen) {
 					if g.thorough() && g.rng.intn(8) == 0 {
 						gor = 17 + g.rng.intn(48)
 					}
+					if c18Provers[entry] && !g.thorough() { // (each call is a whole proof: several multi-exponentiations)
+						k, gor = 2, 2+g.rng.intn(2)
+					}
 					if entry == "fft" && shape >= 2 && shape <= 4 { // ONE large domain shared by >= 8 goroutines
 						gor = 8 + g.rng.intn(g.budget(5, 25))
 						if p < 2 {
@@ -640,6 +829,36 @@ func genC18(g *gen) {
 					}
 					g.emit("C18 %s %s %x %x %x %x", entry, curve, k, gor, p, (g.rng.u64()>>20)<<4|uint64(shape))
 				}
+			}
+		}
+	}
+	// entry points with a parallel implementation above a size threshold: run above it, many times (see execC18Par)
+	for _, entry := range c18ParEntries {
+		for _, curve := range all {
+			if !c18ParSupported(entry, curve) || c18Makers[entry+"/"+curve] == nil {
+				continue
+			}
+			cost := c18ParCost[entry]
+			if cost.k == 0 {
+				cost = c18ParRun{k: 4, g: 3, lines: 1}
+			}
+			isField := false
+			for _, f := range c18SmallFields {
+				isField = isField || f == curve
+			}
+			if isField && entry == "fft" {
+				cost = c18ParRun{k: 0x18, g: 6, lines: 3}
+			}
+			lines := cost.lines * g.budget(1, 4)
+			sub := g.rng.intn(16)
+			for i := 0; i < lines; i++ {
+				procs := []int{16, 8, 16, 3, 2, 16, 8}[g.rng.intn(7)]
+				k := cost.k * g.budget(1, 3)
+				if k > 0x200 {
+					k = 0x200
+				}
+				// consecutive sub-shapes, so that the lines of one family cover different sizes
+				g.emit("C18 par %s %s %x %x %x %x", entry, curve, k, cost.g, procs, (g.rng.u64()>>20)<<4|uint64((sub+i)&0xf))
 			}
 		}
 	}
@@ -663,7 +882,13 @@ func genC18(g *gen) {
 		"C18 pair koalabear 2 2 2 1", "C18 pair bn254 2 2 2 1 1", "C18 PAIR bn254 2 2 2 1", "C18 pair bn254 2 2 2 A",
 		"C18 fresh mimc bn254 2 2", "C18 fresh nosuch bn254 2 2 1", "C18 fresh mimc koalabear 2 2 1", "C18 fresh mimc bn254 0 2 1",
 		"C18 fresh mimc bn254 41 2 1", "C18 fresh mimc bn254 2 0 1", "C18 fresh mimc bn254 2 c9 1", "C18 fresh edwards grumpkin 2 2 1",
-		"C18 fresh bigintpool bandersnatch 2 2 1", "C18 fresh mimc bn254 2 2 xyz", "C18 fresh fresh bn254 2 2 1"} {
+		"C18 fresh bigintpool bandersnatch 2 2 1", "C18 fresh mimc bn254 2 2 xyz", "C18 fresh fresh bn254 2 2 1",
+		"C18 par", "C18 par merkle koalabear 4 2 2", "C18 par merkle bn254 4 2 2 1", "C18 par merkle koalabear 0 2 2 1",
+		"C18 par merkle koalabear 201 2 2 1", "C18 par merkle koalabear 4 41 2 1", "C18 par merkle koalabear 4 2 1 1",
+		"C18 par merkle koalabear 4 2 41 1", "C18 par merkle koalabear 4 2 2 xyz", "C18 par pair bn254 4 2 2 1",
+		"C18 par mimc bn254 4 2 2 1", "C18 par nosuch bn254 4 2 2 1", "C18 par fft nosuch 4 2 2 1", "C18 par par bn254 4 2 2 1",
+		"C18 par vortex babybear 4 2 2 1", "C18 par sis bn254 4 2 2 1", "C18 par fft koalabear 4 2 2 1 1",
+		"C18 merkle bn254 2 2 2 1", "C18 vortex goldilocks 2 2 2 1", "C18 fft nosuch 2 2 2 1", "C18 plookupvec koalabear 2 2 2 1"} {
 		g.emit("%s", l)
 	}
 }
